@@ -248,6 +248,7 @@ fn line_probe_fn(addr: usize) -> u64 {
 }
 
 pub fn run_tree(cfg: &TreeCfg, sched: &[Feed], env: &Env, end: bool) -> TreeOut {
+    let _watch = crate::common::watch(|w| w.push_str(&crate::e2::witness(cfg, sched, env)));
     let p = make_parser(cfg);
     p.tokenizer.sink.sink.line_probe.set(Some((&p.tokenizer as *const _ as usize, line_probe_fn)));
     let mut out = TreeOut::default();
